@@ -746,6 +746,9 @@ func (s String) Split(args Tuple, kwargs StringDict) (Object, error) {
 	)
 	switch v := pyval.(type) {
 	case String:
+		if len(v) == 0 {
+			return nil, ExceptionNewf(ValueError, "empty separator")
+		}
 		vs = strings.SplitN(string(s), string(v), int(max)+1)
 	case NoneType:
 		vs = fieldsN(string(s), int(max))
